@@ -10,17 +10,17 @@ type R = Rootable![Gc<'_, Lock<u32>>];
 fn arena() -> Arena<R> { Arena::new(|mc| Gc::new(mc, Lock::new(1))) }
 """
 NEG = {
-    "finalize_twice": "let m = a.finish_marking().unwrap(); m.finalize(|_, _| ()); m.finalize(|_, _| ());",
-    "finalize_then_start_sweeping": "let m = a.finish_marking().unwrap(); m.finalize(|_, _| ()); m.start_sweeping();",
-    "start_sweeping_twice": "let m = a.finish_marking().unwrap(); m.start_sweeping(); m.start_sweeping();",
-    "start_sweeping_then_finalize": "let m = a.finish_marking().unwrap(); m.start_sweeping(); m.finalize(|_, _| ());",
-    "mutate_while_marked_arena_alive": "let m = a.finish_marking().unwrap(); a.mutate(|_, _| ()); m.start_sweeping();",
-    "collect_while_marked_arena_alive": "let m = a.finish_marking().unwrap(); a.collect_debt(); m.start_sweeping();",
-    "second_token_while_first_alive": "let m = a.finish_marking().unwrap(); let m2 = a.mark_debt(); m.start_sweeping();",
-    "token_kept_across_finish_cycle": "let m = a.finish_marking().unwrap(); a.finish_cycle(); m.finalize(|_, _| ());",
-    "token_outlives_arena": "let m = { let mut b = arena(); b.finish_marking().unwrap() }; m.start_sweeping();",
-    "token_cloned": "let m = a.finish_marking().unwrap(); let m2 = m.clone(); m.start_sweeping(); m2.start_sweeping();",
-    "token_returned_from_finalize": "let m = a.finish_marking().unwrap(); let fc2 = m.finalize(|fc, _| fc);",
+    "finalize_twice": "let mut m = a.finish_marking().unwrap(); m.finalize(|_, _| ()); m.finalize(|_, _| ());",
+    "finalize_then_start_sweeping": "let mut m = a.finish_marking().unwrap(); m.finalize(|_, _| ()); m.start_sweeping();",
+    "start_sweeping_twice": "let mut m = a.finish_marking().unwrap(); m.start_sweeping(); m.start_sweeping();",
+    "start_sweeping_then_finalize": "let mut m = a.finish_marking().unwrap(); m.start_sweeping(); m.finalize(|_, _| ());",
+    "mutate_while_marked_arena_alive": "let mut m = a.finish_marking().unwrap(); a.mutate(|_, _| ()); m.start_sweeping();",
+    "collect_while_marked_arena_alive": "let mut m = a.finish_marking().unwrap(); a.collect_debt(); m.start_sweeping();",
+    "second_token_while_first_alive": "let mut m = a.finish_marking().unwrap(); let m2 = a.mark_debt(); m.start_sweeping();",
+    "token_kept_across_finish_cycle": "let mut m = a.finish_marking().unwrap(); a.finish_cycle(); m.finalize(|_, _| ());",
+    "token_outlives_arena": "let mut m = { let mut b = arena(); b.finish_marking().unwrap() }; m.start_sweeping();",
+    "token_cloned": "let mut m = a.finish_marking().unwrap(); let m2 = m.clone(); m.start_sweeping(); m2.start_sweeping();",
+    "token_returned_from_finalize": "let mut m = a.finish_marking().unwrap(); let fc2 = m.finalize(|fc, _| fc);",
     "finalization_context_kept": "let mut keep = None; a.finish_marking().unwrap().finalize(|fc, _| { keep = Some(fc); }); let _k = keep;",
 }
 POS = {
